@@ -3,6 +3,7 @@ package main
 import (
 	"fmt"
 	"go/ast"
+	"go/constant"
 	"go/token"
 	"go/types"
 	"sort"
@@ -15,7 +16,7 @@ import (
 
 func init() {
 	register(&Rule{ID: "R-recursion-measure", Floor: 250, Run: ruleRecursionMeasure,
-		Doc: "every call-graph cycle inside lexer, parser, analyzer, the two AST packages (printers), optimizer and fuzzer has a measure. Edges of a recursive component are classified: (a) structural — a tree-typed argument/receiver is a strict sub-term (field / element / type-assertion chain) of a parameter of the caller (parameters that a function hands on unchanged as method receiver, i.e. the Analyzer/Parser context, do not count); (b) consuming (lexer, parser) — a call that consumes input on success dominates the recursive call; (c) visited-set guarded — the call sits under a failed membership test `_, ok := recv.M[k]` of the same map field M into which the callee stores M[k] as a top-level statement before any call back into the component. An edge with none of these in a structural component violates; so does a cycle made only of neutral edges (same node handed on / no consumption). Necessary for C05/C15: a cycle without a measure is unbounded recursion on some input (cyclic import graph, self-referential text)."})
+		Doc: "every call-graph cycle inside lexer, parser, analyzer, the two AST packages (printers), optimizer and fuzzer has a measure. Edges of a recursive component are classified: (a) structural — a tree-typed argument/receiver is a strict sub-term (field / element / type-assertion chain) of a parameter of the caller (parameters that a function hands on unchanged as method receiver, i.e. the Analyzer/Parser context, do not count); (b) consuming (lexer, parser) — a call that consumes input on success dominates the recursive call; (c) visited-set guarded — the call is reached only on the key-absent outcome of a membership test of a map M under a key k (comma-ok lookup, bool map, or a helper predicate / test-and-insert helper of the package, decided on SSA with arguments substituted), and M[k] is stored before the cycle can be re-entered: in the caller before the call, by the test-and-insert helper, or in the callee before any call back into the component; k is the key handed to the callee, or (self recursion) M and k are the function's own parameters and M is handed on. A closure handed to a helper stands for the tree values it captures (a call through a function parameter is a neutral edge, the closure's own calls are classified against the parameters of the function it is written in). An edge with none of these in a structural component violates; so does a cycle made only of neutral edges (same node handed on / no consumption). Necessary for C05/C15: a cycle without a measure is unbounded recursion on some input (cyclic import graph, self-referential text)."})
 }
 
 var actxRecPkgs = []string{"homescript/lexer", "homescript/parser", "homescript/parser/ast", "homescript/analyzer", "homescript/analyzer/ast", "homescript/optimizer", "homescript/fuzzer"}
@@ -102,6 +103,45 @@ func actxDerive(v ssa.Value, seen map[ssa.Value]bool) (root *ssa.Parameter, stri
 		return actxDerive(x.X, seen)
 	case *ssa.Convert:
 		return actxDerive(x.X, seen)
+	case *ssa.FreeVar:
+		// a captured variable of a closure: the value bound in the enclosing function
+		fn := x.Parent()
+		if fn == nil || fn.Parent() == nil {
+			return nil, false, false
+		}
+		idx := -1
+		for i, fv := range fn.FreeVars {
+			if fv == x {
+				idx = i
+			}
+		}
+		for _, b := range fn.Parent().Blocks {
+			for _, ins := range b.Instrs {
+				if mc, ok := ins.(*ssa.MakeClosure); ok && mc.Fn == ssa.Value(fn) && idx >= 0 && idx < len(mc.Bindings) {
+					return actxDerive(mc.Bindings[idx], seen)
+				}
+			}
+		}
+		return nil, false, false
+	case *ssa.MakeClosure:
+		// a closure handed on stands for the tree values it captures (the context receiver aside)
+		var root *ssa.Parameter
+		strict, any := true, false
+		for _, b := range x.Bindings {
+			r, s, ok := actxDerive(b, seen)
+			if !ok || r == nil {
+				continue
+			}
+			if pf := r.Parent(); pf != nil && pf.Signature.Recv() != nil && len(pf.Params) > 0 && pf.Params[0] == r {
+				continue
+			}
+			if root != nil && r != root {
+				return nil, false, false
+			}
+			root, any = r, true
+			strict = strict && s
+		}
+		return root, strict, any
 	case *ssa.Phi:
 		var root *ssa.Parameter
 		strict, any := true, false
@@ -178,6 +218,16 @@ func ruleRecursionMeasure(c *Ctx) []Obligation {
 		}
 	}
 	sort.Slice(nodes, func(i, j int) bool { return nodes[i].String() < nodes[j].String() })
+	// the call graph's edge lists come out in map order: fix the order (callee, then call site)
+	for _, es := range succ {
+		es := es
+		sort.SliceStable(es, func(i, j int) bool {
+			if a, b := es[i].to.String(), es[j].to.String(); a != b {
+				return a < b
+			}
+			return actxPosKey(c, es[i].site.Pos()) < actxPosKey(c, es[j].site.Pos())
+		})
+	}
 	// Tarjan
 	index, low := map[node]int{}, map[node]int{}
 	on := map[node]bool{}
@@ -396,6 +446,16 @@ func ruleRecursionMeasure(c *Ctx) []Obligation {
 	return out
 }
 
+// actxEnclosedBy: f is an anonymous function written (transitively) inside outer.
+func actxEnclosedBy(f, outer *ssa.Function) bool {
+	for p := f.Parent(); p != nil; p = p.Parent() {
+		if p == outer {
+			return true
+		}
+	}
+	return false
+}
+
 func actxShortFn(f *ssa.Function) string {
 	s := f.String()
 	s = strings.ReplaceAll(s, ModPath+"/", "")
@@ -555,17 +615,37 @@ func actxClassifyEdge(c *Ctx, e *actxRecEdge, isToken bool, cons map[*ssa.Functi
 	var args []ssa.Value
 	if cc.IsInvoke() {
 		args = append(args, cc.Value)
+	} else if cc.StaticCallee() == nil {
+		// a call through a function value (closure parameter / captured closure): the value called
+		// carries whatever it captured
+		switch cc.Value.(type) {
+		case *ssa.Parameter, *ssa.FreeVar, *ssa.MakeClosure:
+			args = append(args, cc.Value)
+		}
 	}
 	args = append(args, cc.Args...)
 	neutral := ""
 	var unrelated []string
+	isFuncVal := func(a ssa.Value) bool {
+		if _, ok := a.Type().Underlying().(*types.Signature); !ok {
+			return false
+		}
+		switch a.(type) {
+		case *ssa.Parameter, *ssa.FreeVar, *ssa.MakeClosure:
+			return true
+		}
+		return false
+	}
 	for i, a := range args {
-		if !actxCompound(a.Type()) {
+		if !actxCompound(a.Type()) && !isFuncVal(a) {
 			continue
 		}
 		root, strict, ok := actxDerive(a, map[ssa.Value]bool{})
 		if ok && root != nil {
-			isCtx := ctxRecv[e.from] && len(e.from.Params) > 0 && root == e.from.Params[0] && e.from.Signature.Recv() != nil
+			// the context (Analyzer / Parser receiver handed on unchanged) of the function — or, for a
+			// closure, of the function it is written in
+			rootFn := root.Parent()
+			isCtx := rootFn != nil && ctxRecv[rootFn] && len(rootFn.Params) > 0 && root == rootFn.Params[0] && rootFn.Signature.Recv() != nil && (rootFn == e.from || actxEnclosedBy(e.from, rootFn))
 			if isCtx {
 				if !strict && i == 0 {
 					continue // the context handed on
@@ -587,6 +667,12 @@ func actxClassifyEdge(c *Ctx, e *actxRecEdge, isToken bool, cons map[*ssa.Functi
 	if gok {
 		e.class, e.why = "D-guard", gwhy
 		return
+	}
+	if ok2, why2 := actxGuardedSSA(c, e, inComp); ok2 {
+		e.class, e.why = "D-guard", why2
+		return
+	} else if why2 != "" && (gwhy == "" || strings.HasPrefix(gwhy, "the call is not under")) {
+		gwhy = why2
 	}
 	if neutral != "" {
 		e.class, e.why = "N", neutral
@@ -1002,4 +1088,317 @@ func actxGuardedAtEntry(info *types.Info, fd *ast.FuncDecl, ce *ast.CallExpr) (b
 		return false, ""
 	}
 	return true, fmt.Sprintf("visited set at entry: `if %s[%s] { return }` and `%s[%s] = …` precede every recursive call, which hands %s on", mapParam.Name(), keyParam.Name(), mapParam.Name(), keyParam.Name(), mapParam.Name())
+}
+
+// ---------------------------------------------------------------------------
+// visited-set guard decided on the SSA form (class (c), any syntactic shape):
+// the recursive call is dominated by the "key absent" outcome of a membership
+// test of a map M under a key k — written inline (comma-ok lookup, bool map)
+// or in a helper predicate / test-and-insert helper — and M[k] is stored
+// before the cycle can be re-entered: in the caller before the call, by the
+// test-and-insert helper, or in the callee before any call back into the
+// component. Either k is the key handed to the callee (the callee's activation
+// is new), or — for self recursion — M and k are the function's own
+// parameters and M is handed on (each activation removes one unseen key).
+
+type actxMemberTest struct {
+	m, k     string
+	absent   *ssa.BasicBlock // entered only when the key was absent
+	inserted bool            // the test itself stored M[k] on the absent outcome
+	at       ssa.Instruction
+}
+
+// actxCondSuccs: the successors taken when v is true / false, for an If whose
+// condition is v or !v.
+func actxCondSuccs(v ssa.Value) (onTrue, onFalse []*ssa.BasicBlock) {
+	refs := v.Referrers()
+	if refs == nil {
+		return nil, nil
+	}
+	for _, r := range *refs {
+		switch x := r.(type) {
+		case *ssa.If:
+			onTrue = append(onTrue, x.Block().Succs[0])
+			onFalse = append(onFalse, x.Block().Succs[1])
+		case *ssa.UnOp:
+			if x.Op == token.NOT {
+				f, t := actxCondSuccs(x)
+				onTrue = append(onTrue, t...)
+				onFalse = append(onFalse, f...)
+			}
+		}
+	}
+	return onTrue, onFalse
+}
+
+func actxSinglePred(bs []*ssa.BasicBlock) []*ssa.BasicBlock {
+	var out []*ssa.BasicBlock
+	for _, b := range bs {
+		if len(b.Preds) == 1 {
+			out = append(out, b)
+		}
+	}
+	return out
+}
+
+// actxLookupOutcome: for a map lookup, the value that tells presence.
+func actxLookupPresence(l *ssa.Lookup) ssa.Value {
+	if _, isMap := l.X.Type().Underlying().(*types.Map); !isMap {
+		return nil
+	}
+	if l.CommaOk {
+		if l.Referrers() == nil {
+			return nil
+		}
+		for _, r := range *l.Referrers() {
+			if ex, ok := r.(*ssa.Extract); ok && ex.Index == 1 {
+				return ex
+			}
+		}
+		return nil
+	}
+	if bt, ok := l.Type().Underlying().(*types.Basic); ok && bt.Kind() == types.Bool {
+		return l
+	}
+	return nil
+}
+
+// actxHelperMembership summarises a helper h called as `call` from frame fr:
+// kind "member" (result true iff M[k] present), "absent" (result true iff
+// absent) or "testinsert" (result true iff absent, and then M[k] was stored).
+func actxHelperMembership(fr *actxFrame, call *ssa.Call) (kind, m, k string) {
+	h := call.Call.StaticCallee()
+	if h == nil || h.Blocks == nil || len(h.Blocks) > 12 || h.Signature.Results().Len() != 1 {
+		return "", "", ""
+	}
+	if bt, ok := h.Signature.Results().At(0).Type().Underlying().(*types.Basic); !ok || bt.Kind() != types.Bool {
+		return "", "", ""
+	}
+	sub := fr.enter(&call.Call)
+	if sub == nil {
+		return "", "", ""
+	}
+	for _, b := range h.Blocks {
+		for _, ins := range b.Instrs {
+			l, ok := ins.(*ssa.Lookup)
+			if !ok {
+				continue
+			}
+			pres := actxLookupPresence(l)
+			if pres == nil {
+				continue
+			}
+			m, k = sub.sym(l.X), sub.sym(l.Index)
+			if actxUnknownSym(m) || actxUnknownSym(k) {
+				continue
+			}
+			rets := actxReturns(h)
+			// plain predicate: every return hands back the presence flag (or its negation)
+			allPres, allNeg := true, true
+			for _, r := range rets {
+				v := r.Results[0]
+				if v != pres {
+					allPres = false
+				}
+				if u, ok := v.(*ssa.UnOp); !ok || u.Op != token.NOT || u.X != pres {
+					allNeg = false
+				}
+			}
+			if len(rets) > 0 && allPres {
+				return "member", m, k
+			}
+			if len(rets) > 0 && allNeg {
+				return "absent", m, k
+			}
+			// test-and-insert: present → false; absent → store, true
+			onTrue, onFalse := actxCondSuccs(pres)
+			onTrue, onFalse = actxSinglePred(onTrue), actxSinglePred(onFalse)
+			if len(onTrue) != 1 || len(onFalse) != 1 {
+				continue
+			}
+			okAll := true
+			for _, r := range rets {
+				kst, isConst := r.Results[0].(*ssa.Const)
+				if !isConst || kst.Value == nil {
+					okAll = false
+					break
+				}
+				val := constant.BoolVal(kst.Value)
+				inPresent := onTrue[0] == r.Block() || onTrue[0].Dominates(r.Block())
+				inAbsent := onFalse[0] == r.Block() || onFalse[0].Dominates(r.Block())
+				switch {
+				case inPresent && !val:
+				case inAbsent && val:
+					stored := false
+					for _, b2 := range h.Blocks {
+						for _, i2 := range b2.Instrs {
+							if mu, ok := i2.(*ssa.MapUpdate); ok && sub.sym(mu.Map) == m && sub.sym(mu.Key) == k && actxInstrDominates(mu, r) && (onFalse[0] == b2 || onFalse[0].Dominates(b2)) {
+								stored = true
+							}
+						}
+					}
+					if !stored {
+						okAll = false
+					}
+				default:
+					okAll = false
+				}
+			}
+			if okAll && len(rets) > 0 {
+				return "testinsert", m, k
+			}
+		}
+	}
+	return "", "", ""
+}
+
+func actxMemberTests(fr *actxFrame) []actxMemberTest {
+	var out []actxMemberTest
+	for _, b := range fr.fn.Blocks {
+		for _, ins := range b.Instrs {
+			switch x := ins.(type) {
+			case *ssa.Lookup:
+				pres := actxLookupPresence(x)
+				if pres == nil {
+					continue
+				}
+				m, k := fr.sym(x.X), fr.sym(x.Index)
+				if actxUnknownSym(m) || actxUnknownSym(k) {
+					continue
+				}
+				_, onFalse := actxCondSuccs(pres)
+				for _, ab := range actxSinglePred(onFalse) {
+					out = append(out, actxMemberTest{m: m, k: k, absent: ab, at: x})
+				}
+			case *ssa.Call:
+				kind, m, k := actxHelperMembership(fr, x)
+				if kind == "" {
+					continue
+				}
+				onTrue, onFalse := actxCondSuccs(x)
+				switch kind {
+				case "member":
+					for _, ab := range actxSinglePred(onFalse) {
+						out = append(out, actxMemberTest{m: m, k: k, absent: ab, at: x})
+					}
+				case "absent":
+					for _, ab := range actxSinglePred(onTrue) {
+						out = append(out, actxMemberTest{m: m, k: k, absent: ab, at: x})
+					}
+				case "testinsert":
+					for _, ab := range actxSinglePred(onTrue) {
+						out = append(out, actxMemberTest{m: m, k: k, absent: ab, inserted: true, at: x})
+					}
+				}
+			}
+		}
+	}
+	return out
+}
+
+func actxGuardedSSA(c *Ctx, e *actxRecEdge, inComp map[*ssa.Function]bool) (bool, string) {
+	site, ok := e.site.(ssa.Instruction)
+	if !ok || e.from.Blocks == nil {
+		return false, ""
+	}
+	fr := actxNewFrame(e.from, nil, 0)
+	cc := e.site.Common()
+	var argSyms []string
+	for _, a := range cc.Args {
+		argSyms = append(argSyms, fr.sym(a))
+	}
+	if cc.IsInvoke() {
+		argSyms = append(argSyms, fr.sym(cc.Value))
+	}
+	passes := func(s string) bool {
+		for _, a := range argSyms {
+			if a == s {
+				return true
+			}
+		}
+		return false
+	}
+	reaches := func(m string) bool { // the callee can reach the same map: handed on, or a field of something handed on
+		for _, a := range argSyms {
+			if a == m || (!actxUnknownSym(a) && strings.HasPrefix(m, a+".")) {
+				return true
+			}
+		}
+		return false
+	}
+	why := ""
+	for _, t := range actxMemberTests(fr) {
+		if !(t.absent == site.Block() || t.absent.Dominates(site.Block())) {
+			continue
+		}
+		if !reaches(t.m) {
+			why = fmt.Sprintf("guarded by a failed membership test of %s, but that map is not handed to the callee", t.m)
+			continue
+		}
+		// where is M[k] stored?
+		inserted, where := t.inserted, "by the test-and-insert helper"
+		if !inserted {
+			for _, b := range e.from.Blocks {
+				for _, ins := range b.Instrs {
+					if mu, ok := ins.(*ssa.MapUpdate); ok && fr.sym(mu.Map) == t.m && fr.sym(mu.Key) == t.k && actxInstrDominates(mu, site) && (t.absent == b || t.absent.Dominates(b)) {
+						inserted, where = true, "in the caller at "+c.Pos(mu.Pos())
+					}
+				}
+			}
+		}
+		ownKey := false
+		if e.from == e.to {
+			// own parameters, map handed on in the same position
+			for i, p := range e.from.Params {
+				if fr.sym(p) == t.m && i < len(cc.Args) && fr.sym(cc.Args[i]) == t.m {
+					for _, q := range e.from.Params {
+						if fr.sym(q) == t.k {
+							ownKey = true
+						}
+					}
+				}
+			}
+		}
+		if !inserted && passes(t.k) && e.to.Blocks != nil {
+			// callee side: stored before any call back into the component
+			if call, isCall := site.(*ssa.Call); isCall {
+				if sub := fr.enter(&call.Call); sub != nil {
+					for _, b := range e.to.Blocks {
+						for _, ins := range b.Instrs {
+							mu, ok := ins.(*ssa.MapUpdate)
+							if !ok || sub.sym(mu.Map) != t.m || sub.sym(mu.Key) != t.k {
+								continue
+							}
+							first := true
+							for _, b2 := range e.to.Blocks {
+								for _, i2 := range b2.Instrs {
+									if ci, ok := i2.(ssa.CallInstruction); ok {
+										if g := ci.Common().StaticCallee(); g != nil && inComp[g] && !actxInstrDominates(mu, i2) {
+											first = false
+										}
+									}
+								}
+							}
+							if first {
+								inserted, where = true, "by "+e.to.Name()+" at "+c.Pos(mu.Pos())+", before any call back into the cycle"
+							} else {
+								why = fmt.Sprintf("guarded by a failed membership test of %s, but %s stores the key only after it has already called back into the cycle", t.m, e.to.Name())
+							}
+						}
+					}
+				}
+			}
+		}
+		if !inserted {
+			if why == "" {
+				why = fmt.Sprintf("guarded by a failed membership test of %s[%s], but the key is not stored before the cycle is re-entered", t.m, t.k)
+			}
+			continue
+		}
+		if passes(t.k) || ownKey {
+			return true, fmt.Sprintf("visited set: the call is reached only when %s[%s] was absent, and the key is stored %s", t.m, t.k, where)
+		}
+		why = fmt.Sprintf("guarded by a failed membership test of %s[%s], but the call neither passes that key nor hands the function's own visited set on", t.m, t.k)
+	}
+	return false, why
 }
